@@ -44,6 +44,13 @@ def plan(tier, seed):
             d = lops.gen_leaf(rng, kind, None, maxn)
             if d is not None:
                 P.add("leaf:" + kind, desc=d)
+    for kind in lops.LEAF_KINDS:
+        # size-dependent regime: lengths past 16 / 32, more than three batch / coil entries
+        rng = P.rng("big:" + kind)
+        for i in range(4 if quick else 50):
+            d = lops.gen_leaf(rng, kind, None, 34)
+            if d is not None:
+                P.add("big:" + kind, desc=d)
     # exhaustive 1-D block settings
     NB = 8 if quick else 10
     for N in range(1, NB + 1):
